@@ -114,10 +114,92 @@ def branch_when(cond, atom_pred, value):
             c = strip_all_casts(children(c)[0])
             continue
         break
-    if c is None or not atom_pred(c):
+    if c is None:
         return None
-    truth = value != neg
-    return 0 if truth else 1
+    if atom_pred(c):
+        truth = value != neg
+        return 0 if truth else 1
+    # a conjunction / disjunction evaluated as a whole (join block): an operand that decides the outcome alone
+    pol = _operand_polarity(c, atom_pred)
+    if pol is not None:
+        op, atom_truth_for_op_true = pol
+        # '&&': the atom having the polarity that makes its conjunct false makes the whole false
+        # '||': the atom having the polarity that makes its disjunct true makes the whole true
+        if op == '&&' and value != atom_truth_for_op_true:
+            whole = False
+        elif op == '||' and value == atom_truth_for_op_true:
+            whole = True
+        else:
+            return None
+        truth = whole != neg
+        return 0 if truth else 1
+    return None
+
+
+def _operand_polarity(c, atom_pred):
+    """c is a pure '&&' (or pure '||') tree: returns (operator, truth value of the atom for which its operand is
+    true) if the atom is one of the operands, possibly negated"""
+    c = strip_all_casts(c)
+    while c.get('k') == 'ParenExpr':
+        c = strip_all_casts(children(c)[0])
+    if c.get('k') != 'BinaryOperator' or c.get('op') not in ('&&', '||'):
+        return None
+    op = c['op']
+
+    def operands(n):
+        n = strip_all_casts(n)
+        while n.get('k') == 'ParenExpr':
+            n = strip_all_casts(children(n)[0])
+        if n.get('k') == 'BinaryOperator' and n.get('op') == op:
+            for k in children(n):
+                yield from operands(k)
+        else:
+            yield n
+    for o in operands(c):
+        neg = False
+        x = o
+        while x.get('k') == 'UnaryOperator' and x.get('op') == '!':
+            neg = not neg
+            x = strip_all_casts(children(x)[0])
+            while x.get('k') == 'ParenExpr':
+                x = strip_all_casts(children(x)[0])
+        if atom_pred(x):
+            return op, (not neg)
+    return None
+
+
+def implied_edges(func, atom_pred, value):
+    """CFG edges on which the atom is KNOWN to have the given value: the matching edge of a block that branches on
+    the atom itself, the true edge of a block that branches on a conjunction containing it with that polarity, the
+    false edge of a disjunction containing it with the opposite polarity"""
+    cfg = func.cfg
+    res = set()
+    for bid, cond in cfg.cond_blocks():
+        if cond is None:
+            continue
+        c = strip_all_casts(cond)
+        neg = False
+        while c is not None and c.get('k') == 'UnaryOperator' and c.get('op') == '!':
+            neg = not neg
+            c = strip_all_casts(children(c)[0])
+        if c is None:
+            continue
+        br = None
+        if atom_pred(c):
+            br = 0 if (value != neg) else 1
+        else:
+            pol = _operand_polarity(c, atom_pred)
+            if pol is not None:
+                op, t = pol
+                if op == '&&' and value == t:
+                    br = 0 if not neg else 1      # whole true  =>  every conjunct true
+                elif op == '||' and value != t:
+                    br = 1 if not neg else 0      # whole false =>  every disjunct false
+        if br is not None:
+            e = cfg.edge_guard(bid, br)
+            if e and e[1] is not None:
+                res.add(e)
+    return res
 
 
 def exempt_edges(func, atom_pred, value):
